@@ -5,10 +5,10 @@ use core::ptr::null_mut;
 use core::sync::atomic::AtomicUsize;
 use std::fmt::{Debug, Formatter, Pointer};
 
-#[cfg(not(feature = "circ_verif"))]
+#[cfg(not(feature = "circ_verif_auto"))]
 use atomic::Atomic;
 use atomic::Ordering;
-#[cfg(feature = "circ_verif")]
+#[cfg(feature = "circ_verif_auto")]
 use crate::verif::HookedAtomic as Atomic;
 
 use super::Guard;
